@@ -321,8 +321,9 @@ class TidesBase(WorldConfigHolder):
                     'max_tidal_l may not be equal for both functions.'
                     )
 
-        # Determine if new tidal frequencies need to be calculated
-        if spin_freq_changed or orbital_freq_changed:
+        # Determine if new tidal frequencies and terms need to be calculated. The tidal terms depend on the eccentricity
+        #    and obliquity results as well as on the frequencies, so they must also be redone if those were refreshed.
+        if spin_freq_changed or orbital_freq_changed or self._need_to_collapse_modes:
             if eccentricity_results is not None and obliquity_results is not None and \
                     spin_frequency is not None and orbital_frequency is not None:
                 # Update the tidal frequencies and terms using the new orbital frequency
